@@ -33,8 +33,8 @@ class Home:
             raise RuntimeError('gpg %s failed: %s' % (args, p.stderr.decode('utf8', 'replace')))
         return p.returncode, p.stdout, p.stderr
 
-    def genkey(self, uid, algo='ed25519', usage='sign', expire='never'):
-        self.run(['--pinentry-mode', 'loopback', '--passphrase', '', '--quick-generate-key', uid,
+    def genkey(self, uid, algo='ed25519', usage='sign', expire='never', passphrase=''):
+        self.run(['--pinentry-mode', 'loopback', '--passphrase', passphrase, '--quick-generate-key', uid,
                   algo, usage, expire], check=True)
         rc, out, err = self.run(['--with-colons', '--list-keys', uid], check=True)
         for line in out.decode().splitlines():
